@@ -138,7 +138,9 @@ func StringValueFromCodeField(message proto.Message) (string, bool) {
 					return original, true
 				}
 			}
-			return strcase.ToKebab(string(value.Name())), true
+			// the rule of the FHIR protos: lower case, '_' for '-' (strcase.ToKebab would
+			// also split "LEVEL1" into "level-1")
+			return strings.ToLower(strings.ReplaceAll(string(value.Name()), "_", "-")), true
 		}
 		if field.Kind() == protoreflect.StringKind {
 			return reflect.Get(field).String(), true
